@@ -95,8 +95,10 @@ where
                 let chunk = self.chunk_buf.split_to(next.size).freeze();
                 self.num_adjacent_reads -= 1;
                 if self.num_adjacent_reads == 0 {
-                    // Time to make another request.
+                    // Time to make another request. Whatever is left in the buffer was sent
+                    // beyond the requested range and is not part of any chunk.
                     self.request = None;
+                    self.chunk_buf.clear();
                 }
                 return Poll::Ready(Some(Ok(chunk)));
             }
